@@ -498,6 +498,7 @@ func (h *pkH) exec(line string) string {
 		pkt := channeltypes.NewPacket(data.GetBytes(), seq, pkPort, c.Cp, pkPort, c.Hub, clienttypes.NewHeight(1, 1000000), 0)
 		h.noteRecv(uint64(ci), seq)
 		res := fx.ibcRecv(pkt, atou(m["ph"]), h.relayer)
+		h.lastErr = pkLastRecvErr
 		if strings.HasPrefix(m["memo"], "fw:") && res == "async" {
 			// the forwarded packet left the hub from inside the callback
 			if fp, ok := packetFromEvents(pkLastRecvEvents); ok {
@@ -513,12 +514,16 @@ func (h *pkH) exec(line string) string {
 			}
 		}
 		return res
-	case "send":
+	case "send", "sendblk":
 		a, _ := h.addr(f[1])
 		ci := idxTok(f[2])
 		c := h.chans[ci]
 		amt, _ := math.NewIntFromString(m["amt"])
-		msg := transfertypes.NewMsgTransfer(pkPort, c.Hub, sdk.Coin{Denom: h.denomTok(m["den"]), Amount: amt}, a.String(), "rollapp-side-receiver", clienttypes.NewHeight(1, 1000000), 0, "")
+		rcv := "rollapp-side-receiver"
+		if f[0] == "sendblk" {
+			rcv = h.blocked.String() // the counterparty-side receiver happens to be the bech32 of a blocked hub account
+		}
+		msg := transfertypes.NewMsgTransfer(pkPort, c.Hub, sdk.Coin{Denom: h.denomTok(m["den"]), Amount: amt}, a.String(), rcv, clienttypes.NewHeight(1, 1000000), 0, "")
 		res, err := fx.Deliver(msg)
 		if err != nil {
 			return "err"
@@ -561,7 +566,16 @@ func (h *pkH) exec(line string) string {
 		} else {
 			r = fx.ibcTimeoutCls(pkt, atou(m["ph"]), h.relayer)
 		}
+		h.lastErr = pkLastRecvErr
 		return r
+	case "timeoutclose":
+		// MsgTimeoutOnClose for a packet the hub sent (the counterparty's channel end is closed)
+		ci := idxTok(f[1])
+		pkt, ok := h.sentPkts[[2]uint64{uint64(ci), atou(m["seq"])}]
+		if !ok {
+			return "replay"
+		}
+		return fx.ibcTimeoutOnCloseCls(pkt, h.relayer)
 	case "fin":
 		_, a := h.addr(f[1])
 		src := m["src"]
@@ -804,6 +818,7 @@ func (f *Fix) ibcAckCls(pkt channeltypes.Packet, ack []byte, ph uint64, relayer 
 		ctx = f.proofCtx(ctx, commontypes.RollappPacket_ON_ACK, pkt, ph)
 		return f.App.TransferStack.OnAcknowledgementPacket(ctx, pkt, ack, relayer)
 	})
+	pkLastRecvErr = err
 	return pkClass(err)
 }
 
@@ -817,6 +832,37 @@ func (f *Fix) ibcTimeoutCls(pkt channeltypes.Packet, ph uint64, relayer sdk.AccA
 		ctx = f.proofCtx(ctx, commontypes.RollappPacket_ON_TIMEOUT, pkt, ph)
 		return f.App.TransferStack.OnTimeoutPacket(ctx, pkt, relayer)
 	})
+	pkLastRecvErr = err
+	return pkClass(err)
+}
+
+// ibcTimeoutOnCloseCls stands for ibc-go core's MsgTimeoutOnClose handler (keeper.TimeoutOnClose + the
+// callback OnTimeoutPacket; a callback error fails the message).  The context comes from the real
+// IBCProofHeightDecorator over a transaction holding the MsgTimeoutOnClose (and a MsgRecvPacket for the same
+// port / channel / sequence: its proof height must not be picked up).
+func (f *Fix) ibcTimeoutOnCloseCls(pkt channeltypes.Packet, relayer sdk.AccAddress) string {
+	ck := f.App.IBCKeeper.ChannelKeeper
+	if len(ck.GetPacketCommitment(f.Ctx, pkt.SourcePort, pkt.SourceChannel, pkt.Sequence)) == 0 {
+		return "replay"
+	}
+	err := f.Try(func(ctx sdk.Context) error {
+		f.deleteCommitment(ctx, pkt)
+		decoy := pkt
+		decoy.DestinationPort, decoy.DestinationChannel = pkt.SourcePort, pkt.SourceChannel
+		msgs := []sdk.Msg{
+			&channeltypes.MsgRecvPacket{Packet: decoy, ProofHeight: clienttypes.NewHeight(1, 1), Signer: Actor(1).String()},
+			&channeltypes.MsgTimeoutOnClose{Packet: pkt, ProofHeight: clienttypes.NewHeight(1, 1), Signer: Actor(1).String()},
+		}
+		out, err := commontypes.NewIBCProofHeightDecorator().AnteHandle(ctx, pkTx{msgs}, false,
+			func(c sdk.Context, _ sdk.Tx, _ bool) (sdk.Context, error) { return c, nil })
+		if err != nil {
+			return err
+		}
+		return f.App.TransferStack.OnTimeoutPacket(out, pkt, relayer)
+	})
+	if err != nil && errors.Is(err, gerrc.ErrInternal) && strings.Contains(err.Error(), "get proof height from context") {
+		return "internal"
+	}
 	return pkClass(err)
 }
 
@@ -1110,8 +1156,10 @@ func (h *pkH) snapshot() *pkSnap {
 var pkRefundErrRe = regexp.MustCompile(`^unable to unescrow tokens, this may be caused by a malicious counterparty module or a bug: please open an issue on counterparty module: spendable balance (\d+)(\S+) is smaller than (\d+)(\S+): insufficient funds$`)
 
 // packet-forward-middleware WriteAcknowledgementForForwardedPacket: the two ways the refund of a forward can fail
-var pkFwdMoveErrRe = regexp.MustCompile(`^failed to send coins from escrow account to refund escrow account: spendable balance (\d+)(\S+) is smaller than (\d+)(\S+): insufficient funds$`)
-var pkFwdBurnErrRe = regexp.MustCompile(`^failed to send coins from escrow to module account for burn: spendable balance (\d+)(\S+) is smaller than (\d+)(\S+): insufficient funds$`)
+// (fmt.Errorf("...: %w") over a registered sdk error prints that error's source location: module path and line of
+// the bank keeper, the same in every process of one binary)
+var pkFwdMoveErrRe = regexp.MustCompile(`^failed to send coins from escrow account to refund escrow account: spendable balance (\d+)(\S+) is smaller than (\d+)(\S+): insufficient funds(?: \[[^\]]+\])?$`)
+var pkFwdBurnErrRe = regexp.MustCompile(`^failed to send coins from escrow to module account for burn: spendable balance (\d+)(\S+) is smaller than (\d+)(\S+): insufficient funds(?: \[[^\]]+\])?$`)
 
 // errClassOf canonicalises RollappPacket.Error: the texts the unchanged code produces are recognised
 // EXACTLY and named; anything else (e.g. a text carrying process-local data) shows as x<digest>
